@@ -58,3 +58,19 @@ package schema
 //@   ensures [C09,name:elements-of-every-list-and-tuple-are-visited] implies(len(nestedTargetables) >= 0 && (typ.IsListType() || typ.IsTupleType()), elemsListed)
 //@   ensures [C09,name:one-target-per-list-or-tuple-element] implies(len(nestedTargetables) >= 0 && !typ.IsObjectType() && !typ.IsMapType() && (typ.IsListType() || typ.IsTupleType()), len(result) == len(val.AsValueSlice()))
 //@ returns-sorted schema.NestedTargetablesForValue C09,C03
+
+// ---- C14/C19: the schema handed to hcl for decoding a JSON body names every declared attribute and every
+// ---- declared block type (an item left out here is dropped by the partial decoding and vanishes from
+// ---- symbols, targets and every other feature).
+//@ contract (*schema.BodySchema).ToHCLSchema (bs) (result)
+//@   requires bs != nil
+//@   loop 1 iter [C14,C09,C10,C13,name:every-declared-attribute-is-named] len(attributes) == old(len(attributes)) + 1 && attributes[len(attributes)-1].Name == name && attributes[len(attributes)-1].Required == attr.IsRequired
+//@   loop 2 iter [C14,C09,C10,C13,name:every-declared-block-type-is-named] len(blocks) == old(len(blocks)) + 1 && blocks[len(blocks)-1].Type == blockType && len(blocks[len(blocks)-1].LabelNames) == len(block.Labels)
+
+// ---- C16: the key under which a dependent body is registered and the key computed from a block are the same
+// ---- canonical text: the marshalled form of the dependency keys, whatever their number.
+//@ contract schema.NewSchemaKey (keys) (result)
+//@   ghost marshalled after (schema.DependencyKeys).MarshalJSON#1 : true
+//@   ghost text after (schema.DependencyKeys).MarshalJSON#1 : b
+//@   ensures [C16,C07,name:the-key-is-the-marshalled-form] marshalled
+//@   ensures [C16,C07,name:the-key-is-the-marshalled-form] implies(err == nil, string(result) == string(text))
